@@ -261,7 +261,12 @@ func runOne(t *testing.T, job *Job, seed uint64, res *Result) {
 					if p := recover(); p != nil {
 						// a panic in the driver goroutine is a harness bug unless it came from
 						// servitor code called synchronously by the scenario
-						s.Violate(job.Prop, "M-panic", simrt.PanicCulprit(fmt.Sprint(p), string(stackOf())), "driver goroutine: "+fmt.Sprint(p)+"\n"+string(stackOf()))
+						culprit := simrt.PanicCulprit(fmt.Sprint(p), string(stackOf()))
+						if strings.HasPrefix(culprit, ":") {
+							res.Err = "harness panic: " + fmt.Sprint(p) + "\n" + string(stackOf())
+							return
+						}
+						s.Violate(job.Prop, "M-panic", culprit, "driver goroutine: "+fmt.Sprint(p)+"\n"+string(stackOf()))
 					}
 				}()
 				sc(r)
